@@ -77,7 +77,7 @@ def stages(tier):
     st.append(dict(label="I1: invariant at every point, bound 1", harness="h_session", variant="sched",
                    configs=S.grid_small(1, bs=(64,), qs=(1, 2, 10) if not quick else (2, 10), nmax=3, endings=("close",), sizes=None) +
                            S.grid_small(1, bs=(64,), cs=(32, 64, 128), qs=(2,), nmax=4, endings=("close",), sizes=[48, 300], earlies=False),
-                   share=0.25, what="objects below and above the container size; invariant evaluated at every scheduling point"))
+                   share=0.4, what="objects below and above the container size; invariant evaluated at every scheduling point"))
     st.append(dict(label="I2: invariant at every point, bound 2", harness="h_session", variant="sched", chunk=2,
                    configs=S.grid_small(2, bs=(64,), cs=(32, 64, 65, 256) if quick else None, qs=(1, 2) if not quick else (2,), nmax=2 if quick else 3,
                                         endings=("close",), earlies=not quick), share=0.4))
